@@ -104,3 +104,13 @@ func VerifWireProcessor(cfg VerifWireCfg, tomlPath string, m *metrics.Metrics, s
 	}
 	return p, snd, nil
 }
+
+// VerifSelectorLockFree: nobody holds (or waits for) the phantom-selector lock.  Asked between two calls of a sequential driver:
+// a lock left behind by a call that has returned blocks the next reload and, behind it, every later registration.
+func VerifSelectorLockFree(p *RegProcessor) bool {
+	if p.selectorMutex.TryLock() {
+		p.selectorMutex.Unlock()
+		return true
+	}
+	return false
+}
